@@ -34,17 +34,17 @@ func GenAdjCase(rng *rand.Rand) AdjCase {
 	if c.Nbrs == 2 {
 		c.SameIface = rng.IntN(4) == 0
 	}
-	n := 12 + rng.IntN(22)
+	n := 10 + rng.IntN(16)
 	for i := 0; i < n; i++ {
-		if rng.IntN(100) < 40 {
+		if rng.IntN(100) < 35 {
 			x := rng.IntN(100)
 			sec := 1
 			switch {
-			case x < 40:
-			case x < 80:
-				sec = 2 + rng.IntN(4)
+			case x < 45:
+			case x < 85:
+				sec = 2 + rng.IntN(3)
 			case x < 95:
-				sec = 6 + rng.IntN(7)
+				sec = 6 + rng.IntN(5)
 			default:
 				sec = 31 + rng.IntN(5)
 			}
@@ -82,9 +82,9 @@ func GenAdjCase(rng *rand.Rand) AdjCase {
 		c.Events = append(c.Events, e)
 	}
 	switch x := rng.IntN(100); {
-	case x < 15:
+	case x < 10:
 		c.Tail = "long"
-	case x < 50:
+	case x < 40:
 		c.Tail = "short"
 	default:
 		c.Tail = "none"
@@ -167,8 +167,19 @@ func RunAdj(c AdjCase, out *Outcome, emit func(Sent)) {
 		if h.Unsettled > 0 && out.Inconclusive == "" {
 			out.Inconclusive = "state did not become stable within the real-time cap"
 		}
+		// release the interface goroutines and buffers when the history is over
+		h.AllSent = nil
+		Guard(func() { h.Event("eth0", false); h.Event("eth1", false) })
+		h.Settle(read)
 	}()
-	if pi, txt := Guard(func() { h.Event("eth0", true); h.Event("eth1", true) }); pi != nil {
+	// both interfaces get their device state (link down) before the first one comes up: a local LSP
+	// built while an interface has no device state at all crashes the server (reported by C33)
+	if pi, txt := Guard(func() {
+		h.Event("eth0", false)
+		h.Event("eth1", false)
+		h.Event("eth0", true)
+		h.Event("eth1", true)
+	}); pi != nil {
 		out.Violate("panic", map[string]string{"op": "link-up", "panic": pi.Msg, "at": pi.At}, "link up panicked: %s", txt)
 		return
 	}
